@@ -1,19 +1,33 @@
-(** C05 - all feature configurations return bit-identical results.  PROVED END TO END: [C05_config_independent] for any two of the eight shipped configurations and any two build modes.
-    Domain and premise as in props/C01.v: [in_domain] = valid_inputb and at most 2^28 digits, every i32
-    exponent; [deep_ok] is vacuous for the compact configurations and the single residual premise for
-    the Eisel-Lemire ones (see props/C01.v).  Closed by [exact]; the model is tied to /repo by the
-    correspondence harness on every run. *)
+(** C05 - all feature configurations return bit-identical results.  PROVED END TO END: [C05_final] for any two of the eight shipped configurations and any two build modes.
+    Domain as in props/C01.v: [in_domain] = valid_inputb (ASCII digits, integer part without leading zero, any
+    i32 exponent) and at most 2^28 digits; all eight configurations, both formats, both build modes; NO further
+    premise (the [deep_ok] versions are kept beneath as the intermediate statements).  Closed by [exact]; the
+    model is tied to /repo by the correspondence harness on every run. *)
 
 From Coq Require Import ZArith QArith Qabs List Bool Reals Qreals.
 From Coq Require Import Floats.SpecFloat.
 From Flocq Require Import Core.Core.
-From ML Require Import base.RustSem model.Fmt model.Num model.Number model.Parse model.Lemire model.Bellerophon model.Top
+From ML Require Import base.RustSem model.Fmt model.Num model.Number model.Parse model.Lemire model.Bellerophon model.Vec model.Bigint model.Slow model.Top
   spec.Decimal spec.Round spec.RoundFacts spec.DigitsSuffice gen.Consts gen.Tables gen.BTables gen.PowDump
   proofs.ParseFacts proofs.FastPathFacts proofs.EndToEnd proofs.EndToEnd2 proofs.EndToEnd3 proofs.EndToEnd4 proofs.EndToEnd5 proofs.EndToEnd6 proofs.EndToEnd7
-  proofs.LemireFacts6 proofs.Glue.
+  proofs.LemireFacts6 proofs.Glue proofs.TruncFacts proofs.TruncFacts2 proofs.SlowFacts1 proofs.DeepFallback proofs.DeepFallback2 proofs.Final.
 Import ListNotations.
 
 Open Scope Z_scope.
+
+Theorem C05_C05_final :
+  forall (c1 c2 : config) (f : format) (b1 b2 : build) (i fr : list Z) (e : Z),
+         In c1 ALL_CONFIGS ->
+         In c2 ALL_CONFIGS -> f = F32 \/ f = F64 -> in_domain i fr e -> PF c1 f b1 i fr e = PF c2 f b2 i fr e.
+Proof. exact C05_final. Qed.
+
+Theorem C05_parse_float_correct_final :
+  forall (c : config) (f : format) (b : build) (i fr : list Z) (e : Z),
+         In c ALL_CONFIGS ->
+         f = F32 \/ f = F64 ->
+         valid_inputb i fr e = true ->
+         zlen i + zlen fr <= 2 ^ 28 -> PF c f b i fr e = Ok (RN f (dec_value i fr e)).
+Proof. exact parse_float_correct_final. Qed.
 
 Theorem C05_C05_config_independent :
   forall (c1 c2 : config) (f : format) (b1 b2 : build) (i fr : list Z) (e : Z),
@@ -21,18 +35,9 @@ Theorem C05_C05_config_independent :
          In c2 ALL_CONFIGS ->
          f = F32 \/ f = F64 ->
          in_domain i fr e ->
-         deep_ok c1 f b1 i fr e -> deep_ok c2 f b2 i fr e -> PF c1 f b1 i fr e = PF c2 f b2 i fr e.
+         EndToEnd7.deep_ok c1 f b1 i fr e ->
+         EndToEnd7.deep_ok c2 f b2 i fr e -> PF c1 f b1 i fr e = PF c2 f b2 i fr e.
 Proof. exact C05_config_independent. Qed.
-
-Theorem C05_parse_float_correct :
-  forall (c : config) (f : format) (b : build) (i fr : list Z) (e : Z),
-         In c ALL_CONFIGS ->
-         f = F32 \/ f = F64 ->
-         valid_inputb i fr e = true ->
-         zlen i + zlen fr <= 2 ^ 28 ->
-         (compact c = false -> no_deep_fallback_at f b (parse_spec i fr e)) ->
-         PF c f b i fr e = Ok (RN f (dec_value i fr e)).
-Proof. exact parse_float_correct. Qed.
 
 Theorem C05_parse_number_build_indep :
   forall (b1 b2 : build) (i f : list Z) (e : Z),
@@ -50,7 +55,8 @@ Theorem C05_try_fast_path_eq_shipped :
 Proof. exact try_fast_path_eq_shipped. Qed.
 
 
+Print Assumptions C05_C05_final.
+Print Assumptions C05_parse_float_correct_final.
 Print Assumptions C05_C05_config_independent.
-Print Assumptions C05_parse_float_correct.
 Print Assumptions C05_parse_number_build_indep.
 Print Assumptions C05_try_fast_path_eq_shipped.
